@@ -46,4 +46,4 @@ package guard
 //@ func (*guard).CanExecute(g, guardID, isBodyFunction) (err)
 //@   property C15 C09
 //@   modifies *
-//@   csensures[only_holder] isnil(deref_result0()) ==> len(g.waitForUnlock) > 0 && g.waitForUnlock[0] == guardID
+//@   csensures[only_holder] err == nil ==> len(g.waitForUnlock) > 0 && g.waitForUnlock[0] == guardID
